@@ -172,6 +172,11 @@ func (g s1Gen) s2Query() string {
 	return "match " + a + "-" + r + "->" + b + where + " return " + strings.Join(items, ", ")
 }
 
+// limitHopQuery: stage S2L — an S2b query with LIMIT k and neither ORDER BY nor SKIP (the shape on which limit pushdown fires).
+func (g s1Gen) limitHopQuery() string {
+	return g.s2Query() + " limit " + Pick(g.rng, []string{"0", "1", "1", "2", "3", "5", "50"})
+}
+
 // countQuery: stage S1c — MATCH (n[:K…]) [WHERE p] RETURN count(n) [AS c].
 func (g s1Gen) countQuery() string {
 	var b strings.Builder
@@ -277,5 +282,9 @@ func (c01TieSuite) Gen(rng *Rng, tier string, w *bufio.Writer, stats *Stats) {
 	for i := 0; i < n/6; i++ {
 		fmt.Fprintf(w, "# case %d s2n\nq %s %d 4 0 0\n", 2*n+n/6+i+1, jsonQuote(g.countHopQuery()), rng.Intn(1<<20))
 		stats.Inc("s2n_generated")
+	}
+	for i := 0; i < n/6; i++ {
+		fmt.Fprintf(w, "# case %d s2l\nq %s %d 4 0 0\n", 2*n+n/3+i+1, jsonQuote(g.limitHopQuery()), rng.Intn(1<<20))
+		stats.Inc("s2l_generated")
 	}
 }
